@@ -684,4 +684,65 @@ Section G.
     - lia.
     - pose proof (Be be). lia.
   Qed.
+
+  (* ---- a well-formed statement list is inside the model's scope ---- *)
+  Notation scoped := (scoped tk cl).
+
+  Ltac sc :=
+    repeat first
+      [ assumption
+      | apply scoped_nil
+      | apply scoped_triv; assumption
+      | apply scoped_app
+      | apply scoped_cons; [eapply ok_of_class; [eassumption | reflexivity] | ] ].
+
+  Lemma wf_scoped_s :
+    (forall s, wf_s s -> scoped (flat_s s)) /\ (forall l, wf_l l -> scoped (flat_l l)) /\
+    (forall m, forall w, wf_m w m -> scoped (flat_m m)) /\ (forall b, wf_b b -> scoped (flat_b b)) /\
+    (forall e, wf_eis e -> scoped (flat_eis e)) /\ (forall e, wf_el e -> scoped (flat_el e)).
+  Proof.
+    destruct (wf_scoped tk cl lvl) as (Se & Sp & Sps).
+    assert (SE : forall e, wf 0 e -> scoped (flat e)) by (intros e H; apply (proj1 (Se e) 0 H)).
+    apply ss_mutind with (P := fun s => wf_s s -> scoped (flat_s s)) (P0 := fun l => wf_l l -> scoped (flat_l l))
+      (P1 := fun m => forall w, wf_m w m -> scoped (flat_m m)) (P2 := fun b => wf_b b -> scoped (flat_b b))
+      (P3 := fun e => wf_eis e -> scoped (flat_eis e)) (P4 := fun e => wf_el e -> scoped (flat_el e)).
+    - intros v w1 a w2 e (H1 & H2 & H3 & H4 & H5). cbn [flat_s]. pose proof (SE e H5). sc.
+    - intros f w1 lp w2 rp (H1 & H2 & H3 & H4 & H5). cbn [flat_s]. sc.
+    - intros f w1 lp w2 p ps w3 rp (H1 & H2 & H3 & H4 & H5 & H6 & H7 & H8 & _). cbn [flat_s].
+      pose proof (Sp p H5). pose proof (Sps ps w3 H6). sc.
+    - intros k w1 c w2 th w3 b IHb eis IHe el IHl w4 en (H1 & H2 & H3 & H4 & _ & H6 & H7 & H8 & H9 & H10 & H11 & H12).
+      cbn [flat_s]. pose proof (SE c H3). specialize (IHb H8). specialize (IHe H9). specialize (IHl H10). sc.
+    - intros k w1 v w2 a w3 e1 w4 to w5 e2 w6 st d w7 body IHb w8 en
+             (H1 & H2 & H3 & H4 & H5 & H6 & H7 & H8 & _ & H10 & H11 & H12 & H13 & _ & H15 & H16 & H17 & H18 & H19 & H20).
+      cbn [flat_s]. pose proof (SE e1 H7). pose proof (SE e2 H12). specialize (IHb H18).
+      assert (Hby : scoped (flat_by st)).
+      { destruct st as [|bk bw1 be bw2]; cbn [flat_by wf_by] in *; [apply scoped_nil|].
+        destruct H15 as (B1 & B2 & B3 & B4 & _). pose proof (SE be B3). sc. }
+      sc.
+    - intros k w1 c w2 d w3 body IHb w4 en (H1 & H2 & H3 & H4 & _ & H6 & H7 & H8 & H9 & H10). cbn [flat_s].
+      pose proof (SE c H3). specialize (IHb H8). sc.
+    - intros k w1 body IHb w2 u w3 c w4 en (H1 & H2 & H3 & H4 & H5 & H6 & H7 & H8 & _ & H10). cbn [flat_s].
+      pose proof (SE c H7). specialize (IHb H3). sc.
+    - intros k H. cbn [flat_s wf_s] in *. sc.
+    - intros k H. cbn [flat_s wf_s] in *. sc.
+    - intros s IHs m IHm w semi (H1 & H2 & H3 & H4 & _). cbn [flat_l]. specialize (IHs H1). specialize (IHm w H2). sc.
+    - intros w _. apply scoped_nil.
+    - intros w1 semi w2 s IHs m IHm w (H1 & H2 & H3 & H4 & H5 & _). cbn [flat_m]. specialize (IHs H4). specialize (IHm w H5). sc.
+    - intros _. apply scoped_nil.
+    - intros l IHl H. cbn [flat_b wf_b] in *. apply IHl. exact H.
+    - intros _. apply scoped_nil.
+    - intros w0 k w1 c w2 th w3 body IHb r IHr (H1 & H2 & H3 & H4 & H5 & _ & H7 & H8 & H9 & H10). cbn [flat_eis].
+      pose proof (SE c H4). specialize (IHb H9). specialize (IHr H10). sc.
+    - intros _. apply scoped_nil.
+    - intros w0 k w1 body IHb (H1 & H2 & H3 & H4). cbn [flat_el]. specialize (IHb H4). sc.
+  Qed.
+
+  Lemma wf_l_in_scope l w2 en k w3 : wf_l l -> all_triv w2 -> cl en = CKw k -> all_triv w3 ->
+    in_scope tk cl (flat_l l ++ w2 ++ en :: w3) = true.
+  Proof.
+    intros Hl H2 Hen H3. unfold StParser.in_scope.
+    assert (S : scoped (flat_l l ++ w2 ++ en :: w3)).
+    { pose proof (proj1 (proj2 wf_scoped_s) l Hl). sc. }
+    specialize (S false []). rewrite app_nil_r in S. rewrite S. destruct (is_nil tk _); reflexivity.
+  Qed.
 End G.
